@@ -91,8 +91,8 @@ def overlay(prog, rep):
     # deletions
     dels = [n for n in ast.walk(fi.node) if isinstance(n, ast.Delete) or (isinstance(n, ast.Call) and isinstance(n.func, ast.Attribute) and norm(n.func.value) == a and n.func.attr in ("pop", "clear", "popitem"))]
     rep.check(not dels, "OVERLAY", fi.short, "no deletion", "no key of the defaults is deleted", f"keys of the first argument are deleted ({norm(dels[0]) if dels else ''})", fi.loc())
-    if any(isinstance(n, (ast.Break, ast.Continue, ast.Return)) for n in ast.walk(lp)):
-        rep.violation("OVERLAY", fi.short, "loop", "the key loop can stop or skip keys", fi.loc(lp))
+    if any(isinstance(n, (ast.Break, ast.Return)) for n in ast.walk(lp)):
+        rep.violation("OVERLAY", fi.short, "loop", "the key loop can stop before every key of the user's document was merged", fi.loc(lp))
     env = Env(fi, prog, inline_locals=False)
     sums, _ = summarize(fi=None, body=lp.body, env=env)
     A, B = Form.atom(f"{a}[{k}]"), Form.atom(f"{b}[{k}]")
@@ -113,7 +113,9 @@ def overlay(prog, rep):
         elif absent:
             rep.check(wrote == B and not rec, "OVERLAY", fi.short, "key only in the user's file", f"{a}[{k}] = {b}[{k}]", f"a key that only the user has is not copied over (`{a}[{k}]` := {wrote!r})", fi.loc(lp))
         elif present and both_dict:
-            okr = len(rec) == 1 and len(rec[0].args) >= 2 and norm(rec[0].args[0]) == f"{a}[{k}]" and norm(rec[0].args[1]) == f"{b}[{k}]" and wrote is None
+            from ..paths import inline_simple_locals
+
+            okr = len(rec) == 1 and len(rec[0].args) >= 2 and norm(inline_simple_locals(rec[0].args[0], fi)) == f"{a}[{k}]" and norm(inline_simple_locals(rec[0].args[1], fi)) == f"{b}[{k}]" and wrote is None
             rep.check(okr, "OVERLAY", fi.short, "both tables", f"_merge({a}[{k}], {b}[{k}])", f"two tables under the same key are not merged recursively in the same order (calls {[norm(c)[:50] for c in rec]}, write {wrote!r}): nested defaults the user did not set are lost", fi.loc(lp))
         elif present and equal:
             rep.check(wrote in (None, B) and not rec, "OVERLAY", fi.short, "equal leaf", "left as is", f"equal leaves are rewritten as {wrote!r}", fi.loc(lp))
@@ -160,22 +162,70 @@ def first_run(prog, rep):
     ok = len(writes) == 1 and len(writes[0].args) == 1 and norm(writes[0].args[0]) == f"_comment_out_toml({lc.params[1]})"
     rep.check(ok, "FIRST-RUN", lc.short, "first-run file content", "_comment_out_toml(default_config)", f"the first-run file is written as `{norm(writes[0].args[0]) if writes and writes[0].args else '?'}`: on the next load its live keys would override (or duplicate) the defaults", lc.loc())
     fi = prog.func("_comment_out_toml")
+    ok, why = _comment_rule(prog, fi)
+    rep.check(ok, "FIRST-RUN", fi.short, "comment-out rule", "'#' + line for non-blank non-header lines", why, fi.loc())
+
+
+def _comment_rule(prog, fi):
+    """-> (ok, why).  Accepted shapes: "\n".join(<per-line result> for line in s.split("\n")) as a comprehension, or a loop
+    appending one result per line to a list that is then joined; the per-line result is the conditional expression
+    `"#" + line if line.strip() and not line.strip().startswith("[") else line` or a helper whose path summaries say the same."""
+    from ..affine import Env
+    from ..paths import PathSummary, _expand_test, summarize
+    from ..sqlmodel import single_def
+
     s = fi.params[0]
     rets = [n for n in walk_own(fi.node) if isinstance(n, ast.Return)]
-    ok = False
-    why = "not a single join over a comprehension"
-    if len(rets) == 1 and isinstance(rets[0].value, ast.Call) and norm(rets[0].value.func) == "'\\n'.join" and len(rets[0].value.args) == 1 and isinstance(rets[0].value.args[0], (ast.ListComp, ast.GeneratorExp)):
-        c = rets[0].value.args[0]
-        g = c.generators[0]
-        ln = norm(g.target)
-        if norm(g.iter) in (f"{s}.split('\\n')", f"{s}.splitlines()") and not g.ifs and isinstance(c.elt, ast.IfExp):
-            t, body, other = norm(c.elt.test), norm(c.elt.body), norm(c.elt.orelse)
-            good_tests = (f"{ln}.strip() and (not {ln}.strip().startswith('['))", f"{ln}.strip() and not {ln}.strip().startswith('[')")
-            if t in good_tests and body == f"'#' + {ln}" and other == ln:
-                ok = True
+    if len(rets) != 1 or not (isinstance(rets[0].value, ast.Call) and norm(rets[0].value.func) == "'\\n'.join" and len(rets[0].value.args) == 1):
+        return False, "the result is not the lines joined with newlines"
+    coll = rets[0].value.args[0]
+    producer, ln = None, None
+    if isinstance(coll, (ast.ListComp, ast.GeneratorExp)) and len(coll.generators) == 1:
+        g = coll.generators[0]
+        if norm(g.iter) not in (f"{s}.split('\\n')",) or g.ifs:
+            return False, f"lines come from `{norm(g.iter)}` (filtered: {bool(g.ifs)}), not from every line of the text"
+        producer, ln = coll.elt, norm(g.target)
+    elif isinstance(coll, ast.Name):
+        loops = [l for l in walk_own(fi.node) if isinstance(l, ast.For) and norm(l.iter) == f"{s}.split('\\n')"]
+        init = single_def(fi, coll.id)
+        if len(loops) != 1 or init is None or norm(init) not in ("[]", "list()"):
+            return False, "lines are not collected by one loop over every line of the text"
+        body = [x for x in loops[0].body if not (isinstance(x, ast.Expr) and isinstance(x.value, ast.Constant))]
+        if len(body) != 1 or not (isinstance(body[0], ast.Expr) and isinstance(body[0].value, ast.Call) and norm(body[0].value.func) == f"{coll.id}.append" and len(body[0].value.args) == 1):
+            return False, "the loop does not append exactly one result per line"
+        producer, ln = body[0].value.args[0], norm(loops[0].target)
+    else:
+        return False, "unrecognised way of collecting the lines"
+    want = {(f"{ln}.strip()", True), (f"{ln}.strip().startswith('[')", False)}
+    if isinstance(producer, ast.IfExp):
+        ps = PathSummary()
+        _expand_test(producer.test, True, fi, Env(fi, prog, inline_locals=False), ps, ps.state)
+        if ps.opaque == want and not ps.lits and norm(producer.body) == f"'#' + {ln}" and norm(producer.orelse) == ln:
+            return True, ""
+        return False, f"line rule is `{norm(producer)}`: every non-blank line that is not a table header must be commented out, headers and blank lines kept"
+    if isinstance(producer, ast.Call) and isinstance(producer.func, ast.Name) and len(producer.args) == 1 and norm(producer.args[0]) == ln:
+        h = prog.lookup(fi, producer.func.id)
+        from ..model import FuncInfo
+
+        if not isinstance(h, FuncInfo) or len(h.params) != 1:
+            return False, f"per-line helper {producer.func.id} not found"
+        p = h.params[0]
+        wanth = {(f"{p}.strip()", True), (f"{p}.strip().startswith('[')", False)}
+        sums, _ = summarize(h, env=Env(h, prog, inline_locals=False))
+        for sm in sums:
+            r = norm(sm.ret) if sm.ret is not None else None
+            if r == f"'#' + {p}":
+                if sm.opaque != wanth or sm.lits:
+                    return False, f"{h.short} comments a line out under {sorted(sm.opaque)}, not exactly for non-blank non-header lines"
+            elif r == p:
+                if wanth <= sm.opaque:
+                    return False, f"{h.short} leaves a non-blank non-header line uncommented"
             else:
-                why = f"line rule is `{body} if {t} else {other}`: every non-blank line that is not a table header must be commented out, headers and blank lines kept"
-    rep.check(ok, "FIRST-RUN", fi.short, "comment-out rule", "'#' + line for non-blank non-header lines", why, fi.loc())
+                return False, f"{h.short} returns `{r}`"
+        if not any((norm(sm.ret) if sm.ret is not None else None) == f"'#' + {p}" for sm in sums):
+            return False, f"{h.short} never comments a line out"
+        return True, ""
+    return False, f"unrecognised per-line result `{norm(producer)}`"
 
 
 def check(prog, rep):
